@@ -159,11 +159,12 @@ def gen_exhaustive(depth):
 
 # ------------------------------------------------------------------------------------------------ concurrent generator
 def prog_ops(p):
-    """scheduling points of a thread program: its letters plus the final drops of what it still holds"""
+    """(estimated) scheduling points of a thread program: its letters plus the final drops of what it still holds"""
     h = 1; n = 0
+    cost = {"C": 1, "c": 1, "D": 1, "r": 1, "x": 1, "U": 1, "u": 4, "q": 2, "m": 0, "s": 0, "k": 4, "K": 4, "n": 3}
     for c in p:
         if h == 0: break
-        n += 1
+        n += cost.get(c, 1)
         if c in "Cc": h += 1
         elif c in "Drx": h -= 1
     return n + h
@@ -178,7 +179,7 @@ def gen_prog(rng, maxlen):
     h = 1; p = ""
     for _ in range(rng.below(maxlen + 1)):
         if h == 0: break
-        c = rng.choice("CCcDDrxU")
+        c = rng.choice("CCcDDrxUuuqmskKn")
         if c in "Cc": h += 1
         elif c in "Drx": h -= 1
         p += c
@@ -186,14 +187,17 @@ def gen_prog(rng, maxlen):
 
 # scenarios that are ALWAYS explored by a complete depth-first enumeration of their interleavings ("-" = the thread only
 # drops the one handle it starts with): k threads each dropping their last handle at the same time (k = 2, 3, 4),
-# one thread copying and dropping while the others drop, a use racing with the last releases.
-MANDATORY = ["- -", "- - -", "- - - -", "CD -", "cr -", "CD - -", "C - -", "CD CD", "U - -", "x r", "CDD Ur"]
+# one thread copying and dropping while the others drop, a use racing with the last releases, unify() racing with the
+# release of the only other handle (and with another unify, and with two releases), every other member (observers,
+# move, swap, converting overloads, a no-delete handle) racing with a release.
+MANDATORY = ["- -", "- - -", "- - - -", "CD -", "cr -", "CD - -", "C - -", "CD CD", "U - -", "x r", "CDD Ur",
+             "u -", "u - -", "u u", "Cu -", "uD C", "q -", "ms -", "k -", "K -", "n -", "n u"]
 
 def conc_cases(rng, thorough):
     cap_fixed = 100000 if thorough else 6000
     out = ["conc 100000 dfs " + p for p in MANDATORY]
-    fixed = ["CUD cr Ux", "CC UD", "x r D D"]
-    if thorough: fixed += ["CDD CDD CDD", "CcDD crU", "U U U U", "CD CD D D"]
+    fixed = ["CUD cr Ux", "CC UD", "x r D D", "uU u -"]
+    if thorough: fixed += ["CDD CDD CDD", "CcDD crU", "U U U U", "CD CD D D", "u u u", "Cu qr k", "uu Cu -"]
     out += ["conc %d dfs %s" % (cap_fixed, p) for p in fixed]
     budget = 40000 if thorough else 2500
     nrand = 60 if thorough else 16
@@ -292,7 +296,7 @@ elif seq_cases:
         samples = [{"case": seq_cases[i], "result": impl[i]} for i in (0, ncorpus + 40, ncorpus + nexh + 1) if i < len(impl)]
 
 # ------------------------------------------------------------------------------------------------ concurrent part: interleavings under the shim
-conc_stats = {"conc_cases": len(cc_cases), "mandatory_scenarios_fully_enumerated": 0, "interleavings": 0, "exhaustive_cases": 0, "distinct_traces": 0, "preempted_traces": 0, "max_depth": 0}
+conc_stats = {"conc_cases": len(cc_cases), "mandatory_scenarios_fully_enumerated": 0, "traces_with_unify_clone": 0, "interleavings": 0, "exhaustive_cases": 0, "distinct_traces": 0, "preempted_traces": 0, "max_depth": 0}
 if cc_cases and drv is not None:
     shim = os.path.join(verif.VERIF, "harness", "C12", "atomic_shim.hpp")
     cexe, clog = ck.build_cpp("c12_conc", ["harness/C12/conc_harness.cpp"], extra=["-include", shim, "-DNDEBUG"])
@@ -336,7 +340,8 @@ if cc_cases and drv is not None:
                 body = tl[:tl.rfind(" P=")]
                 if body not in seen:
                     seen.add(body)
-                    tids = [e.split(",")[1] for e in f[3:f.index(";")] if e[0] in "ASUD"]
+                    if " K," in body: conc_stats["traces_with_unify_clone"] += 1
+                    tids = [e.split(",")[1] for e in f[3:f.index(";")] if e[0] in "ASUDK"]
                     comp = [x for i2, x in enumerate(tids) if i2 == 0 or tids[i2 - 1] != x]
                     if len(comp) != len(set(comp)): conc_stats["preempted_traces"] += 1; distinct.add(body)
                 mp = re.search(r" P=(\S.*) sched=", tl)
@@ -345,9 +350,9 @@ if cc_cases and drv is not None:
                     ck.violation("CountingPtr violates the property under this interleaving: " + (mp.group(1) if mp else tl[-80:]),
                                  {"case": rcase, "trace": tl})
                 else:
-                    md = re.search(r"dtor=(\d+) live=(\d)", tl)
+                    md = re.search(r"dtor=([\d.]+) ", tl)
                     want = "destroyed=%s bad=0 quiescent=1" % md.group(1)
-                    if "accepted" not in v or want not in v or " rc=0 " not in v:
+                    if "accepted" not in v or want not in v or not re.search(r" rc=0(\.0)* ", v):
                         ck.violation("event trace of the implementation is not a run of the proven transition system: %s" % v,
                                      {"case": rcase, "trace": tl, "model": v, "correspondence": "harness/C12/conc_harness.cpp vs coq/C12/Conc.v"}, no_input=True)
                 if ck.violations >= 3: break
@@ -382,14 +387,14 @@ if pr is not None and not pr["ok"]:
 ck.finish({
     "evaluations": len(seq_cases) + conc_stats["interleavings"],
     "distinct_nontrivial": len(distinct),
-    "rule": "(1) handle-operation histories over 2..8 handle variables (even: CountingPtr<Obj>, odd: CountingPtr<const Obj>) and as many objects as the history creates: "
-            "corpus; every well-typed operation sequence of length <= 2 (quick) / 3 (thorough) over 3 variables after 5 aliasing prefixes; "
-            "random histories from a pointer-tracking generator in 4 bias modes (mixed, alias-heavy, unify-heavy, lifetime churn) with self-/alias-assignment aimed at. "
+    "rule": "(1) handle-operation histories over 2..8 typed handle variables (M CountingPtr<Obj>, C CountingPtr<const Obj>, N CountingPtrNoDelete<Obj>; handles of different kinds share objects through get()) and as many objects as the history creates: "
+            "corpus; every well-typed operation sequence of length <= 2 (quick) / 3 (thorough) over 3 variables of kinds MCM / MNN / MCN after 10 aliasing prefixes (incl. a default and a no-delete handle on one object); "
+            "random histories from a pointer-tracking generator in 5 bias modes (mixed, alias-heavy, unify-heavy, lifetime churn, raw-pointer sharing across deleter kinds) with self-/alias-assignment aimed at. "
             "Each runs on the real class (counted object type with destructor log and live-instance set, ASan+UBSan+leak check) and on the extracted Coq model; "
-            "after every step get()/bool/use_count()/unique()/payload of every variable and the destructor log are compared, and the property is evaluated on the implementation's observations alone. "
+            "after every step get()/bool/use_count()/unique()/payload of every variable of every deleter kind, the destructor log and the set of objects left alive by a no-delete handle are compared (all other observers - valid, empty, *, ->, the 12 comparison operators, operator<< - are checked against get()), and the property is evaluated on the implementation's observations alone. "
             "non-trivial = the history reaches a state with a shared object and destroys an object before the end; distinct = distinct case text. "
-            "(2) 2-4 real threads running copy/drop programs on one shared object under a deterministic scheduler (std::atomic inside tlx redirected by a force-included shim): "
-            "every atomic operation (read-modify-write, plain load, plain store) and the Deleter call are scheduling points; a fixed list of small scenarios (k = 2,3,4 threads each dropping their last handle at the same time, copy+drop against drop, use against the last releases) is ALWAYS enumerated completely, the other programs completely when they fit the budget, else sampled; the Deleter passed to CountingPtr counts its calls (exactly 1 required) and defers the release of the memory, so a double destruction is a reported verdict with its schedule, not a crash; every logged event trace (fetch_add/fetch_sub with the value read, Deleter, use) is replayed on the extracted transition system of Conc.v. "
+            "(2) 2-4 real threads running programs over every mutating and observing member (copy/move construction and assignment, converting overloads, reset, swap, unify, unique/use_count, a no-delete handle) on one shared object and the clones unify() makes, under a deterministic scheduler (std::atomic inside tlx redirected by a force-included shim): "
+            "every atomic operation (read-modify-write, plain load, plain store), the Deleter call and the element's copy constructor (inside unify()) are scheduling points; a fixed list of small scenarios (k = 2,3,4 threads each dropping their last handle at the same time, copy+drop against drop, use against the last releases, unify() against the release of the only other handle / another unify / two releases, every other member against a release) is ALWAYS enumerated completely, the other programs completely when they fit the budget, else sampled; the Deleter passed to CountingPtr counts its calls (exactly 1 required) and defers the release of the memory, so a double destruction is a reported verdict with its schedule, not a crash; every logged event trace (fetch_add/fetch_sub with the value read, Deleter, use) is projected onto each object and replayed on the extracted transition system of Conc.v (unify = clone-read + release on the original; the clone is a new instance). "
             "non-trivial = a thread is preempted between two of its shared actions; distinct = distinct event trace. "
             "(3) real-thread stress with real std::atomic (2 and 3 threads; per round 1e5 mixed handle operations per thread on one shared object, then a release race: every thread lets go of each of 20000 objects at the same moment behind a per-object spin barrier, with a Deleter that counts its calls - every object must see exactly one; TSan build in the thorough tier): counted only in input_distribution.",
     "samples": samples,
@@ -401,5 +406,6 @@ ck.finish({
     "std::atomic<size_t> is modelled as sequentially consistent, one event per read-modify-write (the source uses the default seq_cst ++/--); the shim gives exactly that semantics; weak-memory behaviour is outside the model and only exercised by the real-thread stress run (ASan, TSan in the thorough tier)",
     "lifetime preconditions of the C++ object model (constructors on raw storage, everything else on constructed handles; use_count() only on non-empty handles) are preconditions of the histories: an operation violating them is skipped by model and harness alike",
     "the managed type's own destructor/copy constructor do not touch CountingPtr handles (payload is plain data)",
-    "variables are typed in the harness (even: CountingPtr<Obj>, odd: CountingPtr<const Obj>); the converting overloads are exercised Obj -> const Obj only; the model is untyped and the theorems cover all histories",
+    "variables are typed in the harness (M/C/N per case); the converting overloads are exercised Obj -> const Obj only; the model knows only the deleter kind of each variable (any assignment) and the theorems cover all histories",
+    "an object whose last handle was a no-delete handle stays alive without owner (the no-operation Deleter ran); the harness releases it at the end of the case",
 ])
